@@ -59,7 +59,7 @@ PROPS = {
     "C08": {"lean": ["QF.Props.C08", "QF.Props.C08Project", "QF.Props.C08Guards"], "extra_ns": ["QF.Props.C08Guards"],
             "sections": [hist("hist", ["select", "drop", "slice", "copy"], cover=["new", "select", "drop", "slice", "copy"]),
                          {"section": "hist", "tag": "hist-new", "opt": "newonly=1", "quick": 150, "thorough": 1500, "cover_ops": {"new"}}]},
-    "C09": {"lean": ["QF.Props.C09", "QF.Props.C09Equals", "QF.Props.C06"], "extra_ns": ["QF.Props.C06"],
+    "C09": {"lean": ["QF.Props.C09", "QF.Props.C09Equals", "QF.Props.C06", "QF.Props.C09Observe"], "extra_ns": ["QF.Props.C06", "QF.Props.C09Observe"],
             "sections": [dict(hist("hist", ["equals", "rebuild", "rebuild", "sort", "permute", "filter", "slice", "string", "tocsv", "tojson", "apply", "rownums", "copy"], quick=250), cover_ops=None),
                          {"section": "jsonsweep", "quick": 1, "thorough": 6, "cover_ops": {"JS"}}]},
     "C11": {"lean": ["QF.Props.C11", "QF.Props.C01Ops"], "extra_ns": ["H", "QF.Props.C01"],
@@ -73,19 +73,27 @@ PROPS = {
                          {"section": "csvread", "quick": 300, "thorough": 3000, "cover_ops": {"CV"}}],
             "rule": "cases = (document, read schedule) pairs read by the real fastcsv reader / ReadCSV and replayed through the L0 mirror (exact rows, errors, stale bytes) "
                     "and the RFC 4180 scanner (what the document denotes); distinct by transcript line; every generated document has quotes, delimiters or line breaks in cells with probability > 1/2"},
-    "C16": {"lean": ["QF.Props.C16", "QF.Props.C16Tables", "QF.Props.C16Layouts", "QF.Props.C16Round"], "extra_ns": ["QF.Props.C16Round"],
-            "sections": [{"section": "ryu", "quick": 300, "thorough": 5000, "cover_ops": {"F"}},
+    "C16": {"lean": ["QF.Props.C16", "QF.Props.C16Tables", "QF.Props.C16Layouts", "QF.Props.C16Round", "QF.Props.C16Core", "QF.Props.C16CoreLoops",
+                     "QF.Props.C16CoreStep4", "QF.Props.C16CoreMain", "QF.Props.C16CoreFlags", "QF.Props.C16CoreTable", "QF.Props.C16CoreCheck"],
+            "extra_ns": ["QF.Props.C16Round", "QF.Props.C16Core"],
+            "sections": [{"section": "ryu", "quick": 300, "thorough": 5500, "cover_ops": {"F"}},
                          dict({"section": "hist", "tag": "hist-jsonfloat", "opt": "floatheavy=1," + mix("tojson", "tojson", "sort", "filter"), "quick": 120, "thorough": 1500},
                               cover_ops={"tojson"}, owns=lambda m: m["op"] == "tojsonfloat")],
-            "open_goals": ["Ryu precision lemma (the truncated 121/122-bit multipliers give the exact floors for all 2^64 inputs) is not proved; the unbounded claim '= strconv text for every float64' is therefore tested, not proved",
-                           "mirror of float64ToDecimal over the extracted tables"],
+            "open_goals": ["Ryu's precision lemma is the one hypothesis left: QF.Props.C16Core.ryu_shortest_partial proves, for the mirror QF.Ryu64.float64ToDecimal (tied to the implementation by exact replay on every generated float) and every finite non-zero float64, "
+                           "that the decimal is in the rounding interval, has the fewest digits, and is a closest one of that length - under the hypothesis that the three mulShift64 results of step 3 are the exact floors of mv, mp, mm times 2^e2/10^e10. "
+                           "ryu_shortest_of_table_precision reduces this to arithmetic about the table entries only: floor(m * multiplier / 2^shift) = floor(m * N / D) for m in {mv, mp, mm} (the 64/128-bit machine arithmetic is discharged for all exponents by mulShift64_exact + shape_check*; "
+                           "mulVal_pos / mulVal_neg identify the multipliers with the correctly rounded 121/122-bit powers of five of C16Tables). NOT proved for all 2^64 floats: that these two floors agree for every m < 2^55 (Lemma 3.3/3.4 of the Ryu paper, which needs a minimum/maximum of m*5^a mod 2^b style computation per exponent). "
+                           "It is decided by exact arithmetic for every generated float (floorsHold / ryu_shortest_of_check, MIRROR-MISMATCH kind=hypothesis), so on the explored floats the theorem applies; the unbounded claim for every float64 remains tested, not proved",
+                           "the link from QF.Props.C16Core.Spec (interval, shortest, closest in units of 10^e10) to Num.isShortestRoundTrip / Num.ofDecimal (C16Round) is not stated as a theorem; interval_value / interval_upper / interval_lower identify the interval ends with the midpoints to Num.decode's neighbours and scale_meaning the units",
+                           "the digit layouts of appendF for d.e < 0 (0.XYZ and Y.XZ) and the formatter's use of decimalLen64 are covered by C16Layouts / replay, not by C16Core (decimalLen64_spec is proved)"],
             "rule": "cases = (float64 bit pattern, buffer state) through the formatter and ToJSON of float-heavy frames (every float token of the output); each output is checked against the Lean definition of shortest round-trip text (exact big-number arithmetic, QF.Num.isShortestRoundTrip) and against strconv; "
+                    "the decimal (m, e, exact-integer flag) of the Ryu core must equal the one computed by the mirror QF.Ryu64 (MIRROR-MISMATCH kind=mirror) and the hypothesis of ryu_shortest_partial (exact mulShift64 floors) must hold for it (kind=hypothesis); "
                     "generator: special values, all exponents x boundary mantissas, exact integers, powers of ten +-1ulp, short decimals, subnormals, random bits; distinct by (bits, prefix, spare)"},
-    "C13": {"lean": ["QF.Props.C13", "QF.Props.C13Render", "QF.Props.C13Write", "QF.Props.C12", "QF.Props.C12Read"], "extra_ns": ["QF.Props.C13Write", "QF.Props.C12", "QF.Props.C12Read"],
+    "C13": {"lean": ["QF.Props.C13", "QF.Props.C13Render", "QF.Props.C13Write", "QF.Props.C12", "QF.Props.C12Read", "QF.Props.C09Observe"], "extra_ns": ["QF.Props.C13Write", "QF.Props.C12", "QF.Props.C12Read", "QF.Props.C09Observe"],
             "sections": [dict(hist("hist", ["tocsv", "tocsv", "sort", "filter", "apply"], quick=250), cover_ops={"tocsv"})],
             "rule": "cases = ToCSV of a derived frame with random Header/Columns options; the bytes are parsed with the spec's RFC 4180 scanner and must denote the frame cell by cell "
                     "(floats: the text must parse back to the identical bits by exact arithmetic), then ReadCSV of those bytes with the types declared must give the expected frame (both EmptyNull settings)"},
-    "C14": {"lean": ["QF.Props.C14", "QF.Props.C14Quote", "QF.Props.C14ToJson", "QF.Props.C16"], "extra_ns": ["QF.Props.C14ToJson", "QF.Props.C16"],
+    "C14": {"lean": ["QF.Props.C14", "QF.Props.C14Quote", "QF.Props.C14ToJson", "QF.Props.C16", "QF.Props.C09Observe"], "extra_ns": ["QF.Props.C14ToJson", "QF.Props.C16", "QF.Props.C09Observe"],
             "sections": [dict(hist("hist", ["tojson", "tojson", "sort", "filter", "apply"], quick=250), cover_ops={"tojson"}),
                          dict({"section": "hist", "tag": "hist-jsonfloat", "opt": "floatheavy=1," + mix("tojson", "tojson", "sort", "filter"), "quick": 150, "thorough": 1500}, cover_ops={"tojson"}),
                          {"section": "jsonsweep", "quick": 1, "thorough": 6, "cover_ops": {"JS"}},
@@ -148,9 +156,9 @@ LEVEL_TEXT = {
     "C14": _lt("ToJSON output of the real code is parsed by the spec's RFC 8259 parser (validity) and must denote the frame record by record; ReadJSON must invert it. Number tokens are judged by exact decimal-to-float arithmetic in Lean.",
                "Lean 4 executable RFC 8259 / exact float semantics as oracle + formatter lemma of C16",
                "quoted_parses: the mirror of AppendQuotedString yields, for every byte string, a token that the RFC 8259 string parser decodes to the string with invalid bytes as U+FFFD; the mirror is compared byte for byte with the real function. encoding/json is trusted for ReadJSON's decoding."),
-    "C16": _lt("layoutInt_spec: the integer layout of appendF writes old content ++ digits ++ zeros for every buffer state (any stale spare capacity). Every output of the real formatter on generated floats and buffer states is checked in Lean against the definition of shortest round-trip text (exact natural-number arithmetic: parses back to the identical bits under correct rounding, no shorter decimal does, closest of that length) and against strconv.FormatFloat.",
-               "Lean 4 proof (formatter layout) + executable Lean definition of shortest round trip as differential oracle",
-               "PARTIAL: the claim for all 2^64 floats rests on Ryu's precision lemma, which is not proved here; the digit-generation core is validated by differential runs only (labelled as tests)."),
+    "C16": _lt("layoutInt_spec: the integer layout of appendF writes old content ++ digits ++ zeros for every buffer state (any stale spare capacity). Every output of the real formatter on generated floats and buffer states is checked in Lean against the definition of shortest round-trip text (exact natural-number arithmetic: parses back to the identical bits under correct rounding, no shorter decimal does, closest of that length) and against strconv.FormatFloat. ryu_shortest_partial (QF.Props.C16Core): the statement-by-statement mirror of float64ToDecimal over the extracted tables (compared exactly with the implementation on every generated float) returns a decimal that is in the rounding interval, shortest, and closest of that length, for every finite non-zero float64 - given that the three mulShift64 products are exact floors; exactInt_spec: the exact-integer fast path is exactly right.",
+               "Lean 4 proof (formatter layout; Ryu core: mulShift64, logarithm approximations, divisibility tests, rounding interval, digit-removal loops, final rounding, trailing-zero flags) + executable Lean definition of shortest round trip as differential oracle",
+               "PARTIAL: the claim for all 2^64 floats rests on Ryu's precision lemma (floor(m*multiplier/2^shift) = floor(m*2^e2/10^e10) for the 121/122-bit multipliers), which is the explicit hypothesis of ryu_shortest_partial and is not proved here; it is decided by exact arithmetic on every generated float."),
     "C12": _lt("read_schedule_independent / any_two_schedules_agree: the mirror of the whole fastcsv reader returns the same rows, fields and error for every read schedule (lock-step simulation against the fully loaded buffer); qscan_content: an escaped field is read back as its content. The real reader and ReadCSV are compared exactly with the L0 mirror and with the RFC 4180 scanner / ReadCSV spec on generated documents, schedules and configurations.",
                "Lean 4 proof (simulation: any schedule = loaded buffer) + differential correspondence",
                "strconv parsing is a parameter (oracle computed by the harness from the standard library). The proof model Core/CsvFull (subject of the schedule-independence and read-back theorems) is executed on every document of up to 2500 bytes as well."),
